@@ -11,6 +11,7 @@ import (
 	"os"
 	"path/filepath"
 	"regexp"
+	"sort"
 	"strings"
 	"sync"
 	"sync/atomic"
@@ -48,9 +49,20 @@ type project struct {
 	rnd     *rand.Rand
 	rndMu   sync.Mutex
 	failPct int
+	script  *buildScript // non-nil: failures are dictated by a TLC schedule
+	slowMs  int64        // extra delay of the stamp module's on-load callback (atomic)
+}
+
+// what a TLC schedule says about the builds (by build number)
+type buildScript struct {
+	scanErr   map[int64]bool
+	onEndFail map[int64]map[int]bool
 }
 
 func (p *project) rand(n int) int {
+	if p.script != nil {
+		return 0
+	}
 	p.rndMu.Lock()
 	defer p.rndMu.Unlock()
 	return p.rnd.Intn(n)
@@ -86,7 +98,7 @@ func (p *project) plugin() api.Plugin {
 			})
 			b.OnResolve(api.OnResolveOptions{Filter: `^virtual:stamp$`}, func(a api.OnResolveArgs) (api.OnResolveResult, error) {
 				hlog(p.hid, "cb.resolve", map[string]interface{}{"stamp": atomic.LoadInt64(&p.stamp)})
-				if p.rand(3) == 0 {
+				if p.script == nil && p.rand(3) == 0 {
 					// re-enter the API from within a callback
 					r := b.Resolve("./dep.js", api.ResolveOptions{ResolveDir: p.dir, Kind: api.ResolveJSImportStatement})
 					_ = r
@@ -97,7 +109,10 @@ func (p *project) plugin() api.Plugin {
 				s := atomic.LoadInt64(&p.stamp)
 				hlog(p.hid, "cb.load", map[string]interface{}{"m": "stamp", "stamp": s})
 				time.Sleep(time.Duration(p.rand(1500)) * time.Microsecond)
-				if p.rand(100) < p.failPct {
+				if ms := atomic.LoadInt64(&p.slowMs); ms > 0 {
+					time.Sleep(time.Duration(ms) * time.Millisecond)
+				}
+				if (p.script == nil && p.rand(100) < p.failPct) || (p.script != nil && p.script.scanErr[s]) {
 					return api.OnLoadResult{}, fmt.Errorf("seeded load failure")
 				}
 				c := fmt.Sprintf("export const STAMP = 'STAMP_%d_'\n", s)
@@ -118,6 +133,9 @@ func (p *project) plugin() api.Plugin {
 						}
 					}
 					fail := p.rand(100) < p.failPct
+					if p.script != nil {
+						fail = p.script.onEndFail[atomic.LoadInt64(&p.stamp)][i]
+					}
 					hlog(p.hid, "cb.onend", map[string]interface{}{"i": i, "stamp": atomic.LoadInt64(&p.stamp), "exists": exists, "fail": fail})
 					if fail {
 						return api.OnEndResult{}, fmt.Errorf("seeded on-end failure")
@@ -282,6 +300,130 @@ func runHistory(r *core.Run, hid int, seed int64, k, n int, withWatch bool) *his
 	hlog(hid, "issue", map[string]interface{}{"c": name, "op": "dispose"})
 	ctx.Dispose()
 	hlog(hid, "ret", map[string]interface{}{"c": name, "op": "dispose"})
+	return h
+}
+
+// runWatchHistory: watch mode.  The watcher goroutine notices edits by itself
+// and starts rebuilds; API calls (Rebuild/Cancel/Dispose) are issued while
+// such a watcher-initiated build is in progress.
+func runWatchHistory(r *core.Run, hid int, seed int64) *history {
+	rnd := rand.New(rand.NewSource(seed))
+	dir := filepath.Join(r.Scratch, fmt.Sprintf("h%d", hid))
+	os.MkdirAll(dir, 0755)
+	core.WriteTree(dir, map[string]string{
+		"a.js":   "import {STAMP} from 'virtual:stamp'\nimport {VER} from './ver.js'\nimport {D} from './dep.js'\nconsole.log('a', STAMP, VER, D)\n",
+		"b.js":   "import {STAMP} from 'virtual:stamp'\nimport {VER} from './ver.js'\nimport {D} from './dep.js'\nconsole.log('b', STAMP, VER, D)\n",
+		"dep.js": "export const D = 'dep'\n",
+	})
+	p := &project{dir: dir, hid: hid, rnd: rand.New(rand.NewSource(seed ^ 0x5bd1e995)), failPct: 5}
+	p.writeVer(0)
+	ctx, cerr := api.Context(api.BuildOptions{
+		AbsWorkingDir: dir, EntryPoints: []string{"a.js", "b.js"}, Bundle: true, Outdir: "out", Write: true,
+		LogLevel: api.LogLevelSilent, Plugins: []api.Plugin{p.plugin()},
+	})
+	if cerr != nil {
+		r.Infra("context creation failed: %v", cerr.Errors)
+		return nil
+	}
+	h := &history{ID: hid, Seed: seed, dir: dir, ctxID: api.VerifContextID(ctx), callers: map[int64]string{}}
+	hlog(hid, "hist.begin", map[string]interface{}{})
+	defer func() {
+		hlog(hid, "hist.end", map[string]interface{}{})
+		_ = ctx
+	}()
+	gid := api.VerifGoID()
+	h.callers[gid] = "c1"
+	var hmu sync.Mutex
+	call := func(name, op string, fn func()) bool {
+		hlog(hid, "issue", map[string]interface{}{"c": name, "op": op})
+		done := make(chan struct{})
+		go func() {
+			hmu.Lock()
+			h.callers[api.VerifGoID()] = name
+			hmu.Unlock()
+			fn()
+			close(done)
+		}()
+		select {
+		case <-done:
+			return true
+		case <-time.After(60 * time.Second):
+			h.Hang = true
+			h.Ops = append(h.Ops, "HANG in "+op)
+			return false
+		}
+	}
+	waitStamp := func(min int64, d time.Duration) bool {
+		deadline := time.Now().Add(d)
+		for time.Now().Before(deadline) {
+			if atomic.LoadInt64(&p.stamp) >= min {
+				return true
+			}
+			time.Sleep(2 * time.Millisecond)
+		}
+		return false
+	}
+	if !call("c1", "watch", func() {
+		err := ctx.Watch(api.WatchOptions{})
+		res := "ok"
+		if err != nil {
+			res = "already"
+		}
+		hlog(hid, "ret", map[string]interface{}{"c": "c1", "op": "watch", "res": res})
+	}) {
+		return h
+	}
+	waitStamp(1, 5*time.Second) // the initial watch build has started
+	time.Sleep(30 * time.Millisecond)
+	rounds := 2 + rnd.Intn(2)
+	for k := 0; k < rounds; k++ {
+		before := atomic.LoadInt64(&p.stamp)
+		atomic.StoreInt64(&p.slowMs, int64(20+rnd.Intn(40)))
+		p.editMu.Lock()
+		v := p.ver + 1
+		hlog(hid, "edit.begin", map[string]interface{}{"ver": v})
+		p.writeVer(v)
+		p.ver = v
+		hlog(hid, "edit.end", map[string]interface{}{"ver": v})
+		p.editMu.Unlock()
+		// the watcher polls every 100ms: wait until it has started a build by itself
+		started := waitStamp(before+1, 3*time.Second)
+		time.Sleep(time.Duration(rnd.Intn(15)) * time.Millisecond)
+		name := fmt.Sprintf("c%d", 2+k)
+		last := k == rounds-1
+		ok := true
+		switch {
+		case last:
+			ok = call(name, "dispose", func() {
+				ctx.Dispose()
+				hlog(hid, "ret", map[string]interface{}{"c": name, "op": "dispose"})
+			})
+		case rnd.Intn(2) == 0:
+			ok = call(name, "cancel", func() {
+				ctx.Cancel()
+				hlog(hid, "ret", map[string]interface{}{"c": name, "op": "cancel"})
+			})
+		default:
+			ok = call(name, "rebuild", func() {
+				res := ctx.Rebuild()
+				kind, stamp, ver := classify(res)
+				hlog(hid, "ret", map[string]interface{}{"c": name, "op": "rebuild", "res": kind, "stamp": stamp, "ver": ver})
+			})
+		}
+		if started {
+			h.Overlap = true
+		}
+		h.Ops = append(h.Ops, fmt.Sprintf("edit;watcher-build-started=%v;%s", started, name))
+		if !ok {
+			return h
+		}
+		atomic.StoreInt64(&p.slowMs, 0)
+		time.Sleep(20 * time.Millisecond)
+	}
+	call("c8", "dispose", func() {
+		ctx.Dispose()
+		hlog(hid, "ret", map[string]interface{}{"c": "c8", "op": "dispose"})
+	})
 	return h
 }
 
@@ -522,6 +664,10 @@ func Run(r *core.Run) {
 	if r.Thorough() {
 		cfgs = append(cfgs, "BuildContext.thorough.cfg")
 	}
+	skip := os.Getenv("VERIF_C20_DEV_SKIP") // developer switch only: "model,random"
+	if strings.Contains(skip, "model") {
+		cfgs = nil
+	}
 	for _, c := range cfgs {
 		res := tlcrun.MustHold(r, tlcrun.Options{Module: "BuildContextMC", Config: c, Workers: 8, TimeoutSec: 1500})
 		if res != nil {
@@ -531,6 +677,9 @@ func Run(r *core.Run) {
 	// (2) the code: randomized histories (run in a child process so that a
 	// crash of esbuild is observed), trace-validated by TLC
 	nh := r.Pick(120, 1500)
+	if strings.Contains(skip, "random") {
+		nh = 0
+	}
 	batch := 40
 	exes := []string{""}
 	if r.Thorough() {
@@ -571,6 +720,71 @@ func Run(r *core.Run) {
 			break
 		}
 	}
+	// (3) binding (R): TLC-generated behaviours imposed on the real context through the gates
+	if r.Violations() == 0 {
+		var scheds []schedule
+		seen := map[string]bool{}
+		res, err := tlcrun.Run(r, tlcrun.Options{Module: "BuildContextSched", Config: "BuildContextSched.cfg", Workers: 1, TimeoutSec: 600,
+			Simulate: fmt.Sprintf("num=%d", r.Pick(1500, 20000)), Depth: 90, Seed: r.Seed,
+			OnCase: func(raw []byte) {
+				var s schedule
+				if json.Unmarshal(raw, &s) == nil && !seen[string(raw)] {
+					seen[string(raw)] = true
+					scheds = append(scheds, s)
+				}
+			}})
+		if err != nil {
+			r.Infra("schedule generation failed: %v", err)
+		} else if res.Violated != "" {
+			r.Infra("BuildContextSched violates %s on the design alone", res.Violated)
+		}
+		sort.SliceStable(scheds, func(i, j int) bool { return scheds[i].score() > scheds[j].score() })
+		want := r.Pick(60, 1200)
+		if len(scheds) > want {
+			// the most eventful half plus a seeded sample of the rest
+			top := scheds[:want/2]
+			rest := scheds[want/2:]
+			r.Rand.Shuffle(len(rest), func(i, j int) { rest[i], rest[j] = rest[j], rest[i] })
+			scheds = append(append([]schedule{}, top...), rest[:want-want/2]...)
+		}
+		followed, replayed := 0, 0
+		for done := 0; done < len(scheds); done += 30 {
+			end := done + 30
+			if end > len(scheds) {
+				end = len(scheds)
+			}
+			var out replayBatchOut
+			cr := r.Child("c20.replay", replayBatchIn{Start: 100000 + done, Scheds: scheds[done:end]}, &out, 10*time.Minute, "")
+			if cr.Crashed || cr.TimedOut {
+				if core.CrashInEsbuild(cr.Stderr) {
+					r.Violation(map[string]interface{}{"kind": "crash", "phase": "schedule-replay"}, "the process replaying a TLC schedule died", map[string]interface{}{"stderr": cr.Stderr})
+				} else {
+					r.Infra("schedule replay driver died (exit %d, timeout=%v):\n%s", cr.ExitCode, cr.TimedOut, cr.Stderr)
+				}
+				break
+			}
+			followed += out.Followed
+			var ok []*history
+			for _, h := range out.Histories {
+				if h.Hang {
+					r.Violation(map[string]interface{}{"kind": "hang", "phase": "schedule-replay"}, "calls on a build context did not terminate within 60s while replaying a TLC schedule", map[string]interface{}{"ops": h.Ops})
+					continue
+				}
+				replayed++
+				r.Case(fmt.Sprintf("sched%d-%d", h.ID, len(h.Events)), true)
+				ok = append(ok, h)
+			}
+			if done == 0 && len(ok) > 0 {
+				r.Sample(map[string]interface{}{"tlc_schedule_replayed": ok[0].Ops, "events": len(ok[0].Events)})
+			}
+			validate(r, ok)
+			if r.Violations() > 5 {
+				break
+			}
+		}
+		r.Set("tlc_schedules_replayed", replayed)
+		r.Set("tlc_schedules_followed_to_the_end", followed)
+	}
 	r.Set("rule", "a history = k goroutines x n seeded random operations (rebuild/cancel/dispose/watch/edit) on one real context with blocking/failing/re-entering plugin callbacks; non-trivial = at least two API calls overlapped in time (by sequence numbers); distinct by (seed, trace length)")
 }
 
@@ -593,7 +807,12 @@ func init() {
 			hid := b.Start + i
 			seed := r.Seed*1000003 + int64(hid)
 			k := 2 + hid%3
-			h := runHistory(r, hid, seed, k, 10+hid%7, hid%5 == 4)
+			var h *history
+			if hid%6 == 5 {
+				h = runWatchHistory(r, hid, seed)
+			} else {
+				h = runHistory(r, hid, seed, k, 10+hid%7, hid%5 == 4)
+			}
 			if h != nil {
 				mu.Lock()
 				hs = append(hs, h)
